@@ -30,7 +30,8 @@ type Layer struct {
 	Units  int
 	Bounds string // human readable statement of what the layer enumerates
 	Run    func(c *Ctx, unit int)
-	// UnitLimit is the watchdog for one unit (default 120 s; normal units take milliseconds to seconds).
+	// UnitLimit is the watchdog period for one unit (default 120 s): the unit is reported as hung when no
+	// case completes during a whole period (cases normally take microseconds to seconds).
 	// A unit that exceeds it is reported as non-terminating and the worker stops.
 	UnitLimit time.Duration
 }
@@ -44,6 +45,9 @@ type Property struct {
 	// Stats, when set, returns additional coverage numbers computed by the property itself
 	// (e.g. the number of distinct states of an explicit-state search); "states" overrides the default.
 	Stats func(tier string) map[string]interface{}
+	// OwnPool: the property installs its own scratch-pool adversary (C18's scheduler); otherwise every
+	// worker runs all layers under the adversarial pool of advpool.go (garbage on Get, poison on Put).
+	OwnPool bool
 }
 
 var registry = map[string]*Property{}
@@ -292,6 +296,9 @@ func runWorker(p *Property, tier string, w, nw int, journal string) {
 		fmt.Fprintln(os.Stderr, hang)
 		os.Exit(3)
 	}
+	if !p.OwnPool {
+		installAdvPool(64)
+	}
 	rep := WorkerReport{Worker: w, Extra: map[string]int64{}}
 	c := &Ctx{prop: p, tier: tier, failKeys: map[string]bool{}, Outcomes: NewU64Set(1 << 22), Extra: rep.Extra, KnownCls: map[string]*KnownStat{}}
 	c.verbose = os.Getenv("VERIF_VERBOSE") != ""
@@ -338,6 +345,11 @@ func runWorker(p *Property, tier string, w, nw int, journal string) {
 				fmt.Printf("WORKER-REPORT %s\n", b)
 				os.Exit(0)
 			}
+			if theAdvPool != nil && !p.OwnPool {
+				for _, pr := range theAdvPool.takeProblems() {
+					c.Fail(fmt.Sprintf("%s/unit%d/pool-protocol", L.Name, u), "scratch pool protocol violated during this unit: "+pr)
+				}
+			}
 			if !c.cut {
 				st.UnitsDone++
 			}
@@ -374,11 +386,20 @@ func runUnitWatched(c *Ctx, L *Layer, u int) bool {
 		defer close(done)
 		runUnit(c, L, u)
 	}()
-	select {
-	case <-done:
-		return false
-	case <-time.After(unitLimit(L)):
-		return true
+	// The unit is hung when no case has completed during a whole limit period (a unit as such may
+	// legitimately run for a long time: thorough schedule trees, far-apart operands).
+	last := atomic.LoadInt64(&c.index)
+	for {
+		select {
+		case <-done:
+			return false
+		case <-time.After(unitLimit(L)):
+			cur := atomic.LoadInt64(&c.index)
+			if cur == last {
+				return true
+			}
+			last = cur
+		}
 	}
 }
 
@@ -772,7 +793,13 @@ func runParent(p *Property, tier string) int {
 	ev := Evidence{PropertyID: p.ID, Tier: tier, Seed: seedFromEnv(), Level: p.Level, Coverage: cov,
 		Assumptions: p.Assumptions, WallS: time.Since(start).Seconds(), Violations: len(viol)}
 	eb, _ := json.MarshalIndent(ev, "", " ")
-	os.WriteFile(filepath.Join(vd, "evidence", p.ID+".json"), eb, 0o644)
+	evDir := filepath.Join(vd, "evidence")
+	if d := os.Getenv("VERIF_EVIDENCE_DIR"); d != "" {
+		// seed runs against a scratch copy of the repository must not overwrite the evidence of /repo
+		evDir = d
+		os.MkdirAll(evDir, 0o755)
+	}
+	os.WriteFile(filepath.Join(evDir, p.ID+".json"), eb, 0o644)
 
 	fmt.Printf("%s tier=%s evaluations=%d nontrivial=%d distinct_outcomes>=%d failing=%d violations=%d exhaustive=%v wall=%.1fs\n",
 		p.ID, tier, evals, nontriv, outMax, total, len(viol), exhaustive, time.Since(start).Seconds())
@@ -883,6 +910,9 @@ func runReplay(p *Property, path string) int {
 		c := &Ctx{prop: p, tier: r.Tier, layer: L, stat: &st, unit: r.Unit, replay: true, target: r.Index,
 			failKeys: map[string]bool{}, Outcomes: NewU64Set(1 << 10), Extra: map[string]int64{}, KnownCls: map[string]*KnownStat{}}
 		c.deadline = time.Now().Add(time.Hour)
+		if !p.OwnPool {
+			installAdvPool(64)
+		}
 		if runUnitWatched(c, L, r.Unit) {
 			fmt.Printf("VIOLATION property=%s replay=%s\n  case: %s\n  the recorded case does not terminate within %v\n", p.ID, path, r.Key, unitLimit(L))
 			return 1
